@@ -15,21 +15,32 @@ def run(ctx):
   f, g, facts = w.f, w.g, w.facts
   con = construct(f)
   # the merge into the record: ALIAS.update(OPV) with ALIAS = _OPERATIVE_CONFIG.setdefault(KEY, {})
-  merge = None
+  merges = []
   for n in g.live_nodes():
     s = n.ast
     if n.kind == 'stmt' and isinstance(s, ast.Expr) and isinstance(s.value, ast.Call) and isinstance(s.value.func, ast.Attribute) \
         and isinstance(s.value.func.value, ast.Name):
       d = def_of(facts[n.id], s.value.func.value.id) or ''
       if d.startswith('_OPERATIVE_CONFIG.setdefault('):
-        merge = (n, s.value, d)
-  if merge is None:
+        merges.append((n, s.value, d))
+    elif n.kind == 'stmt' and isinstance(s, (ast.Assign, ast.Delete)):
+      tg = s.targets[0]
+      if isinstance(tg, ast.Subscript) and isinstance(tg.value, ast.Name):
+        d = def_of(facts[n.id], tg.value.id) or ''
+        if d.startswith('_OPERATIVE_CONFIG.setdefault('):
+          merges.append((n, None, d))
+  if not merges:
     ctx.fail('C07.record', con, 'the wrapper no longer merges the supplied parameters into the operative record entry', f.loc(), instance='merge')
     return
-  mn, mcall, adef = merge
-  ctx.check(mcall.func.attr == 'update' and len(mcall.args) == 1 and isinstance(mcall.args[0], ast.Name), 'C07.record', con,
-            'the record entry is merged with .update(): a parameter supplied in at least one call stays listed, the most recent value wins',
-            'the record entry is written with `%s`, not merged by update' % u(mcall), w.loc(mn), instance='merge')
+  good = [m for m in merges if m[1] is not None and m[1].func.attr == 'update' and len(m[1].args) == 1 and isinstance(m[1].args[0], ast.Name)]
+  other = [m for m in merges if m not in good]
+  ctx.check(bool(good) and not other, 'C07.record', con,
+            'the record entry is only ever merged with .update(): a parameter supplied in at least one call stays listed, the most recent value wins',
+            'the record entry is also written by `%s`: earlier calls\' parameters are lost (not "supplied in at least one call") or the merge is not most-recent-wins'
+            % (other[0][0].text() if other else 'nothing'), w.loc((other or merges)[0][0]), instance='merge')
+  if not good:
+    return
+  mn, mcall, adef = good[0]
   OPV = u(mcall.args[0])
   key = ast.parse(adef, mode='eval').body.args[0]
   kd = [def_of(facts[mn.id], e.id) if isinstance(e, ast.Name) else u(e) for e in (key.elts if isinstance(key, ast.Tuple) else [])]
